@@ -370,6 +370,16 @@ fn run_pat(p: &Pat) -> CaseResult {
         }
     }
     maxd = maxd.max(check_big(&d, comps, p, "end")?);
+    // lookups from the deepest vertices (these walk, and compress, the longest paths)
+    if let Some((root, depth)) = forest(&d) {
+        let mut order: Vec<usize> = (0..n).collect();
+        order.sort_by_key(|&v| std::cmp::Reverse(depth[v]));
+        for &v in order.iter().take(8) {
+            let r = d.par(v);
+            vensure!(r == root[v], "par", "{:?}: par({}) = {} for a vertex at depth {}, root of its tree is {}", p, v, r, depth[v], root[v]);
+        }
+        check_big(&d, comps, p, "after deepest lookups")?;
+    }
     if kind <= 4 && n >= 1 {
         vensure!(comps == 1, "component-count", "{:?}: {} components left after uniting everything", p, comps);
         vensure!(d.size(n / 2) == n, "size", "{:?}: size({}) = {} after uniting all {} elements", p, n / 2, d.size(n / 2), n);
@@ -407,6 +417,13 @@ fn real_main() {
     } else {
         vec![(100, 10), (1_000, 10), (10_000, 5), (100_000, 2)]
     };
+    // the binomial worst case at exact powers of two beyond 2^17 (forest depth 17, 18, 20)
+    let deep: Vec<Pat> = if ctx.thorough() { vec![1 << 17, (1 << 17) + 1, 1 << 18, 1 << 20] } else { vec![1 << 17, (1 << 17) + 1, 1 << 18] }
+        .into_iter()
+        .enumerate()
+        .map(|(i, n)| Pat { kind: 2, n, seed: i as u32 })
+        .collect();
+    ctx.exhaustive("binomial-deep", "dsu-pattern", "binomial unions of equal-size roots at n = 2^17, 2^17+1, 2^18 (2^20 thorough), then lookups of the deepest vertices", false, deep, run_pat);
     for (n, reps) in stages {
         if ctx.violations() > 0 {
             break;
